@@ -652,11 +652,27 @@ def alias_check(body, c: Ctx, extra=()) -> None:
                 if a.arg in mutated:
                     bad(a.arg, "is a parameter of a local def")
 
+    # a loop must not change what it iterates (a list: the iteration would see the change; a dict: RuntimeError in CPython)
+    for n in ast.walk(root):
+        if isinstance(n, ast.For):
+            inner = mutated_names(n.body, c, views)
+            for m in ast.walk(n.iter):
+                nm = _vname(m, c) if isinstance(m, (ast.Name, ast.Attribute)) else None
+                if nm is not None and views.get(nm, nm) in inner:
+                    bad(nm, "is iterated (directly or through .keys() / .items() / zip) by a loop whose body mutates it")
+
     # uses of a mutated name: only where its contents are consumed
     def consumed(node, name):
         p = parent.get(node)
+        deep = depth_of.get(views.get(name, name), 0) >= 2       # objects stored INSIDE name are mutated: reading one out must not keep it
         if isinstance(p, ast.Attribute):                       # name.method(..) / name.attribute (an object inside it, like name[k])
-            return True
+            call = parent.get(p)
+            is_call = isinstance(call, ast.Call) and call.func is p
+            if not deep or isinstance(p.ctx, (ast.Store, ast.Del)) or (is_call and p.attr in _MUTATORS + ("copy", "keys", "items", "values")):
+                return True
+            return consumed(call if is_call else p, name)
+        if isinstance(p, ast.Subscript) and p.value is node and deep and isinstance(p.ctx, ast.Load):
+            return consumed(p, name)
         if isinstance(p, ast.Call):
             f = unparse(p.func)
             if node in p.args:
@@ -731,6 +747,16 @@ def fromkeys_check(body, c: Ctx) -> None:
         return False
 
     for n in ast.walk(root):
+        # d.keys() / d.values() / d.items() / zip(..) / vars(o) are live views or iterators: admitted only where they are merely iterated
+        is_view = isinstance(n, ast.Call) and not n.keywords and (
+            (isinstance(n.func, ast.Attribute) and n.func.attr in ("keys", "values", "items") and not n.args)
+            or (unparse(n.func) == "zip" and len(n.args) == 2) or (unparse(n.func) == "vars" and len(n.args) == 1))
+        if is_view and c.objects:
+            p = parent.get(n)
+            if unparse(n.func) == "vars" and isinstance(p, ast.Assign) and p.value is n and len(p.targets) == 1 and isinstance(p.targets[0], ast.Name):
+                continue                     # X = vars(Y): the view idiom (one variable)
+            if not iterated_only(n):
+                raise Unrecognised(f"`{unparse(n)[:40]}` is a live view / iterator used as a value in `{unparse(p)[:60]}`")
         if _is_fromkeys(n):
             p = parent.get(n)
             if isinstance(p, ast.Assign) and p.value is n and len(p.targets) == 1 and isinstance(p.targets[0], ast.Name):
